@@ -42,6 +42,8 @@ def expected_widths(macros, bits):
 P1 = "#include <avel/Avel.hpp>\n#include <avel/Aligned_allocator.hpp>\nint main() { return 0; }\n"
 
 
+TU2 = "#include <avel/Avel.hpp>\n#include <avel/Aligned_allocator.hpp>\n#include <avel/Cache.hpp>\nint vp_second_translation_unit() { return int(sizeof(avel::vec1x8u)); }\n"
+
 _PREDEF = {}
 _CC2AVEL = {"__SSE2__": "SSE2", "__SSE3__": "SSE3", "__SSSE3__": "SSSE3", "__SSE4_1__": "SSE4_1", "__SSE4_2__": "SSE4_2", "__AVX__": "AVX", "__AVX2__": "AVX2", "__FMA__": "FMA",
             "__AVX512F__": "AVX512F", "__AVX512CD__": "AVX512CD", "__AVX512VL__": "AVX512VL", "__AVX512DQ__": "AVX512DQ", "__AVX512BW__": "AVX512BW", "__AVX512VPOPCNTDQ__": "AVX512VPOPCNTDQ",
@@ -205,9 +207,12 @@ def err_keys(stderr):
     keys = []
     for ln in stderr.split("\n"):
         m = re.search(r"undefined reference to `([^']+)'", ln)
+        mm = re.search(r"multiple definition of `([^']+)'", ln)
         if m:
             sym = re.sub(r"\(.*", "", m.group(1))
             k = "undefined_reference:" + sym
+        elif mm:
+            k = "multiple_definition:" + re.sub(r"\(.*", "", mm.group(1))
         else:
             m = re.search(r"error: (?:static assertion failed|static_assert failed)(.*)", ln)
             if m:
@@ -263,15 +268,26 @@ def compile_point(pt, prog, text, link):
     src = os.path.join(d, "%s-%s-%d-%d.cpp" % (prog, h, os.getpid(), next(_ctr)))
     with open(src, "w") as f:
         f.write(text)
+    src2 = None
     if link:
         exe = src[:-4] + ".bin"
-        cmd = pt.cmd(["-O0", src, "-o", exe])
+        srcs = [src]
+        if prog == "P3":
+            # a header-only library is included from more than one translation unit: every non-template function and every explicit
+            # specialisation must be inline, or the second unit makes the link fail with a multiple definition
+            src2 = src[:-4] + "-tu2.cpp"
+            with open(src2, "w") as f:
+                f.write(TU2)
+            srcs.append(src2)
+        cmd = pt.cmd(["-O0"] + srcs + ["-o", exe])
     else:
         cmd = pt.cmd(["-fsyntax-only", src])
     r = subprocess.run(cmd, stdout=subprocess.PIPE, stderr=subprocess.PIPE, text=True)
     if link and os.path.exists(src[:-4] + ".bin"):
         os.remove(src[:-4] + ".bin")
     os.remove(src)
+    if src2:
+        os.remove(src2)
     return r.returncode, r.stderr
 
 
@@ -316,7 +332,18 @@ def p3_points(tier, inc):
         sets = [[], ["SSE2"], ["SSE4_1", "BMI"], ["AVX2", "FMA", "LZCNT", "BMI2"], ["AVX512F"], ["AVX512VL", "AVX512BW"], ["AVX512VL", "AVX512DQ", "AVX512CD"], list(C.EVERYTHING)]
         pts = [Point(m, False, "g++", "c++11") for m in sets]
         pts += [Point([], False, "clang++", "c++17"), Point(["AVX2"], True, "clang++", "c++20"), Point(list(C.EVERYTHING), False, "clang++", "c++14"), Point(["SSE2"], False, "g++", "c++17")]
-        return pts
+        # every #if arm of the current tree is compiled by some P3 build: the greedy arm cover (recomputed from the tree) and the arms only another compiler / standard selects
+        root = os.path.join(inc, "avel")
+        qs = C.quick_macro_sets(root)
+        pts += [Point(m, False, "g++", "c++11") for m in qs]
+        # ... and in the smallest builds that select it (a guard that asks for less than the arm's body needs fails to compile exactly there)
+        pts += [Point(m, False, "g++", "c++11") for m in C.minimal_selecting_sets(root) if "X86" not in m]
+        pts += [Point(m, False, cxx, std) for m, cxx, std in C.axis_cover(root, qs)]
+        seen, res = set(), []
+        for p in pts:
+            if p.name not in seen:
+                seen.add(p.name); res.append(p)
+        return res
     pts = [Point(m, False, "g++", "c++11") for m in C.lattice_macro_sets()]
     for m in ([], ["SSE2"], ["SSE4_1"], ["AVX2"], ["AVX512VL", "AVX512BW", "AVX512DQ", "AVX512CD"], list(C.EVERYTHING)):
         for cxx in ("g++", "clang++"):
